@@ -13,6 +13,7 @@ import gens_rewards
 import gens_orders
 import gens_events
 import gens_bancor
+import gens_codec
 import vlib
 
 # model-checking configuration per family and tier: (module, cfg)
@@ -197,11 +198,17 @@ def bancor(tier, seed):
     return gens_bancor.bancor(rnd, {"quick": 64, "thorough": 3000}[tier])
 
 
+def codec(tier, seed):
+    rnd = random.Random("%d/codec" % seed)
+    return gens_codec.codec(rnd, {"quick": 40, "thorough": 1000}[tier]) + gens_codec.check_variants() + regress("codec")
+
+
+MC["codec"] = None
 MC["bancor"] = None
 MC["events"] = {"quick": ("EventsStore", "mc/MCEvents_q.cfg"), "thorough": ("EventsStore", "mc/MCEvents.cfg")}
 MC["rewards"] = {"quick": ("MCRewards", "mc/MCRewards.cfg"), "thorough": ("MCRewards", "mc/MCRewards_t.cfg")}
 MC["statesync"] = {"quick": ("Durability", "mc/MCDurability_C29.cfg"), "thorough": ("Durability", "mc/MCDurability_C29_t.cfg")}
 MC["export"] = None
 MC["determinism"] = None
-BUILDERS = {"bancor": bancor, "events": events, "rewards": rewards, "statesync": statesync, "export": export, "determinism": determinism,"markets": markets, "staking": staking, "ledger": ledger, "durability": durability, "crash": lambda tier, seed: crash(tier, seed) + crash_enumeration(tier, seed)}
+BUILDERS = {"codec": codec, "bancor": bancor, "events": events, "rewards": rewards, "statesync": statesync, "export": export, "determinism": determinism,"markets": markets, "staking": staking, "ledger": ledger, "durability": durability, "crash": lambda tier, seed: crash(tier, seed) + crash_enumeration(tier, seed)}
 RANDOMISED = True
